@@ -49,6 +49,9 @@ def rand_op(r):
 
 def cases(chk):
     r = chk.rng
+    # SQLite's own all-or-nothing commit (trusted base for a death INSIDE a COMMIT) must be left switched on by the store
+    yield "journal", {"after": "open"}
+    yield "journal", {"after": "use"}
     # corpus: replace of an existing session / identity killed at every point
     for op in (0, 3, 9):
         for j in range(0, 8):
@@ -170,7 +173,35 @@ def _norm(step):
     return [step[0], step[1], axo.TOMB, step[3]] if step[0] == 5 else list(step)
 
 
+def run_journal(chk, case):
+    import os
+    import tempfile
+    from yowsup.axolotl.store.sqlite.liteaxolotlstore import LiteAxolotlStore
+    d = tempfile.mkdtemp(prefix="c13j-")
+    store = LiteAxolotlStore(os.path.join(d, "axolotl.db"))
+    if case["after"] == "use":
+        for op in (9, 0, 4):
+            axo.apply_op(store, chk.pool, op, KEYS[TABLE_OF[op]][0], 0, 0)
+    out = []
+    seen = set()
+    for ks in ("identityKeyStore", "sessionStore", "preKeyStore", "signedPreKeyStore", "senderKeyStore"):
+        conn = getattr(getattr(store, ks, None), "dbConn", None)
+        if conn is None or id(conn) in seen:
+            continue
+        seen.add(id(conn))
+        mode = conn.execute("PRAGMA journal_mode").fetchone()[0]
+        mode = (mode.decode("ascii", "replace") if isinstance(mode, bytes) else str(mode)).lower()
+        chk.hit("journal_mode:" + mode)
+        if mode not in ("delete", "truncate", "persist", "wal"):
+            out.append(oracle("C13:atomic-commit-disabled", "the store's connection (%s, after %s) runs with PRAGMA journal_mode=%s: nothing on disk can undo a transaction whose pages have "
+                              "started to reach the database file, so a process death inside a COMMIT (or after a cache spill) leaves old and new pages mixed — an existing "
+                              "session or identity can be lost" % (ks, case["after"], mode)))
+    return out
+
+
 def run_case(chk, stream, case):
+    if stream == "journal":
+        return run_journal(chk, case)
     case = dict(case)
     for key in ("steps", "pre"):
         if key in case:
@@ -303,6 +334,8 @@ def _child(path, pool, op, j):
 
 
 def shrink(stream, case):
+    if stream == "journal":
+        return
     if stream == "crash":
         pre = case["pre"]
         for i in range(len(pre)):
